@@ -41,7 +41,7 @@ def preload():
     import scipy.linalg  # noqa: F401
 
 
-def draw_operator(st, tier, like=None, prefer_k2=False):
+def draw_operator(st, tier, like=None, prefer_k2=False, structured_k3=False):
     big = 12 if tier == "thorough" else 9
     d0, d1 = st.int_range(2, 4), st.int_range(2, 4)
     if st.draw(3) == 0:
@@ -142,6 +142,23 @@ def draw_operator(st, tier, like=None, prefer_k2=False):
     k = st.int_range(1, min(dims) + (1 if st.draw(4) == 0 else 0))
     if st.draw(3) and min(dims) > 1:
         k = st.int_range(1, max(1, min(dims) - 1))
+    if structured_k3 and like is None:
+        # the corner where the search degenerates and recurses to a lower Schmidt rank: structured operators on
+        # 4x4 with k = 3 (two library defects were found here by the thorough tier)
+        d0, d1 = 4, 4
+        dims, n, k = [4, 4], 16, 3
+        if st.draw(2):
+            kind = "diagonal"
+            x = np.diag(rng.random(n) * (rng.random(n) < 0.8))
+            if not x.any():
+                x[0, 0] = 1.0
+            x = x.astype(complex) if cplx else x
+        else:
+            kind = "block_diagonal"
+            x = np.zeros((n, n), dtype=complex if cplx else float)
+            for i in range(d0):
+                g = gin(d1, 1 + st.draw(d1))
+                x[i * d1:(i + 1) * d1, i * d1:(i + 1) * d1] = g @ g.conj().T
     if prefer_k2 and like is None and min(dims) >= 3:
         k = st.int_range(2, min(dims) - 1)
         if kind in ("rank_one", "indefinite", "non_hermitian", "hermitian_pq"):
@@ -239,9 +256,9 @@ class Subject:
     pass
 
 
-def make_subject(cs, res, tier, stream, like=None, prefer_k2=False):
+def make_subject(cs, res, tier, stream, like=None, prefer_k2=False, structured_k3=False):
     sub = Subject()
-    x, meta = draw_operator(cs.s(stream), tier, like=like, prefer_k2=prefer_k2)
+    x, meta = draw_operator(cs.s(stream), tier, like=like, prefer_k2=prefer_k2, structured_k3=structured_k3)
     sub.x, sub.meta, sub.x0 = x, meta, x.copy()
     dims, k = meta["dims"], meta["k"]
     sub.opn = float(np.linalg.norm(x, 2))
@@ -314,7 +331,7 @@ def run(cs, tier, run_index):
     quiet()
     res = RunResult()
     sk = _lib()
-    subs = [make_subject(cs, res, tier, "operator", prefer_k2=(run_index % 8 == 7))]
+    subs = [make_subject(cs, res, tier, "operator", prefer_k2=(run_index % 8 == 7), structured_k3=(run_index % 16 == 11))]
     # sometimes a second operator of the same local dimensions and the same k lives in the same history
     # (whatever the routine keeps between calls under a key that ignores the operator meets another one)
     if cs.s("config").draw(3) == 2 or run_index % 8 == 7:
